@@ -423,6 +423,20 @@ Section Inner.
   Qed.
 End Inner.
 
+(* the span token lists under which the theorem holds, as one computable condition *)
+Definition prose_spans (types : list span_kind) : bool :=
+  forallb kind_quiet_nl (removelast types) &&
+  match filter (fun k => match k with SK_LineBreak => true | _ => false end) (removelast types) with [SK_LineBreak] => true | _ => false end.
+
+Lemma tokenize_inner_spans types fn ls : prose_spans types = true -> ls <> [] -> Forall line_ok ls ->
+  tokenize_inner types fn (join [10] ls) = prose_toks ls.
+Proof.
+  intros H. unfold prose_spans in H. apply andb_true_iff in H as [Hq Hl].
+  assert (Hl' : filter (fun k => match k with SK_LineBreak => true | _ => false end) (removelast types) = [SK_LineBreak]).
+  { destruct (filter _ _) as [|[] [|? ?]]; try discriminate. reflexivity. }
+  apply (tokenize_inner_prose types fn Hq Hl').
+Qed.
+
 (* ---- the block phase: the paragraph reader goes on over every line ---- *)
 (* the first character of a continuation line: it can start no block, no list item, and no setext underline *)
 Definition cont_first (c : Z) : bool :=
